@@ -103,6 +103,20 @@ type Timer struct {
 	tm   *vsched.Timer
 	real *time.Timer
 	f    func()
+	tok  byte
+}
+
+// funcFire: the timer of an AfterFunc fires - f runs in a managed thread of its own; what happened before the AfterFunc
+// (or Reset) call happens before f.
+type funcFire struct{ t *Timer }
+
+//go:norace
+func (ff *funcFire) Fire() {
+	t := ff.t
+	vsched.Spawn(func() {
+		vsched.RaceAcquire(unsafe.Pointer(&t.tok))
+		t.f()
+	})
 }
 
 func NewTimer(d time.Duration) *Timer {
@@ -118,16 +132,18 @@ func NewTimer(d time.Duration) *Timer {
 	return &Timer{C: c, c: c, tm: vsched.AddTimer(at, &chanFire{c, at})}
 }
 
-type funcFire struct{ f func() }
-
-func (ff *funcFire) Fire() { vsched.Go(ff.f) }
-
 // AfterFunc runs f in its own managed thread when the timer fires.
 func AfterFunc(d time.Duration, f func()) *Timer {
 	if !vsched.InThread() {
 		return &Timer{real: time.AfterFunc(d, f)}
 	}
-	panic("vtime.AfterFunc is not modelled")
+	if d < 0 {
+		d = 0
+	}
+	t := &Timer{f: f}
+	vsched.RaceRelease(unsafe.Pointer(&t.tok))
+	t.tm = vsched.AddTimer(vsched.Now()+int64(d), &funcFire{t})
+	return t
 }
 
 func (t *Timer) Stop() bool {
@@ -145,11 +161,6 @@ func (t *Timer) Reset(d time.Duration) bool {
 		return t.real.Reset(d)
 	}
 	was := t.tm.Stop()
-	// like Go 1.23+ timers: a Reset discards a stale value
-	select {
-	case <-t.c:
-	default:
-	}
 	if !vsched.InThread() {
 		return was
 	}
@@ -157,14 +168,47 @@ func (t *Timer) Reset(d time.Duration) bool {
 		d = 0
 	}
 	at := vsched.Now() + int64(d)
+	if t.f != nil {
+		vsched.RaceRelease(unsafe.Pointer(&t.tok))
+		t.tm = vsched.AddTimer(at, &funcFire{t})
+		return was
+	}
+	// like Go 1.23+ timers: a Reset discards a stale value
+	select {
+	case <-t.c:
+	default:
+	}
 	t.tm = vsched.AddTimer(at, &chanFire{t.c, at})
 	return was
 }
 
 // Ticker mirrors time.Ticker.
 type Ticker struct {
-	C    <-chan time.Time
-	real *time.Ticker
+	C       <-chan time.Time
+	real    *time.Ticker
+	c       chan time.Time
+	d       int64
+	tm      *vsched.Timer
+	stopped bool
+}
+
+type tickFire struct {
+	tk *Ticker
+	at int64
+}
+
+//go:norace
+func (f *tickFire) Fire() {
+	tk := f.tk
+	if tk.stopped {
+		return
+	}
+	select {
+	case tk.c <- vsched.Base().Add(time.Duration(f.at)): // (a slow receiver misses ticks, as with the real ticker)
+	default:
+	}
+	next := f.at + tk.d
+	tk.tm = vsched.AddTimer(next, &tickFire{tk, next})
 }
 
 func NewTicker(d time.Duration) *Ticker {
@@ -172,19 +216,44 @@ func NewTicker(d time.Duration) *Ticker {
 		rt := time.NewTicker(d)
 		return &Ticker{C: rt.C, real: rt}
 	}
-	panic("vtime.NewTicker is not modelled inside executions")
+	if d <= 0 {
+		panic("non-positive interval for NewTicker")
+	}
+	c := make(chan time.Time, 1)
+	tk := &Ticker{C: c, c: c, d: int64(d)}
+	at := vsched.Now() + int64(d)
+	tk.tm = vsched.AddTimer(at, &tickFire{tk, at})
+	return tk
 }
 
 func (t *Ticker) Stop() {
 	if t.real != nil {
 		t.real.Stop()
+		return
+	}
+	t.stopped = true
+	if t.tm != nil {
+		t.tm.Stop()
 	}
 }
 
 func (t *Ticker) Reset(d time.Duration) {
 	if t.real != nil {
 		t.real.Reset(d)
+		return
 	}
+	if d <= 0 {
+		panic("non-positive interval for Ticker.Reset")
+	}
+	if t.tm != nil {
+		t.tm.Stop()
+	}
+	t.stopped, t.d = false, int64(d)
+	if !vsched.InThread() {
+		return
+	}
+	at := vsched.Now() + int64(d)
+	t.tm = vsched.AddTimer(at, &tickFire{t, at})
 }
 
 func Tick(d time.Duration) <-chan time.Time { return NewTicker(d).C }
